@@ -575,10 +575,10 @@ func c4call(m *goat.M, fn goatlang.Value, f *c4form, args []float64) string {
 }
 
 type c4replay struct {
-	Type int       `json:"type"`
-	Tier string    `json:"tier"`
-	Form string    `json:"form"`
-	Args []string  `json:"args"` // strconv 'g' -1 (NaN, Inf and -0 survive JSON)
+	Type int      `json:"type"`
+	Tier string   `json:"tier"`
+	Form string   `json:"form"`
+	Args []string `json:"args"` // strconv 'g' -1 (NaN, Inf and -0 survive JSON)
 }
 
 func c4forEachArgs(f *c4form, fn func(args []float64)) {
